@@ -67,11 +67,22 @@ def forgeries(blob, rec):
     import dataclasses
     b = DPAPINGBlob.unpack(blob)
     ki = b.key_identifier.key_info
+    out = []
+    if not b.key_identifier.is_public_key:
+        # nonce mode: the forger bets that the receiver derives the KEK from a degenerate L2 key (empty / all zero) at some position
+        for (l1, l2) in ((31, 31), (b.key_identifier.l1, b.key_identifier.l2), (0, 0), (31, 0), (0, 31)):
+            for l2key in (b"", bytes(64)):
+                kek = refimpl.kbkdf_hmac(rec.hash_name.lower(), l2key, refimpl.LABEL, ki, 32)
+                cek = hashlib.sha256(b"forger cek").digest()
+                evil = b"forged by a party without keys"
+                kid = dataclasses.replace(b.key_identifier, l1=l1, l2=l2)
+                fb = dataclasses.replace(b, key_identifier=kid, enc_cek=keywrap.aes_key_wrap(kek, cek), enc_content=AESGCM(cek).encrypt(b.enc_content_parameters[4:16], evil, None))
+                out.append((f"forgery:position({l1},{l2}):l2key={'empty' if not l2key else 'zeros'}", fb.pack()))
+        return out
     if rec.secret_algorithm != "DH" or ki[:4] != b"DHPB":
         return []
     kl = struct.unpack_from("<I", ki, 4)[0]
     p_, g_ = int.from_bytes(ki[8:8 + kl], "big"), int.from_bytes(ki[8 + kl:8 + 2 * kl], "big")
-    out = []
     # (label, field order put in the blob, public value put in the blob, shared secrets the forger bets on)
     plans = [("y=1", p_, 1, [1]), ("y=0", p_, 0, [0]), ("y=p-1", p_, p_ - 1, [1, p_ - 1]), ("p=2,y=1", 2, 1, [1]), ("p=1", 1, 0, [0])]
     for label, fo, y, bets in plans:
@@ -102,7 +113,7 @@ def work(job):
     blob, data = make(ctx, real, rec, mode, layout)
     kw = {} if real else dict(kdf_factory=clientsim.toy_kdf_factory, public_key_fn=clientsim.toy_public_key)
     cases = []
-    for kind, m in ([] if only_forgeries else mutants(ctx, blob, dense)) + (forgeries(blob, rec) if real and mode == "public" and layout == "in-envelope" else []):
+    for kind, m in ([] if only_forgeries else mutants(ctx, blob, dense)) + (forgeries(blob, rec) if real and layout == "in-envelope" else []):
         dc = refdc.KeyServer(now=(361, 17, 13), **kw)
         dc.add_root(rec)
         s = clientsim.Sim(dc, real_crypto=real)
@@ -134,6 +145,8 @@ def run(ctx):
                 if real and rec.secret_algorithm == "DH" and len(rec.secret_parameters) > 100 and mode == "public" and not ctx.thorough:
                     jobs.append((real, ri, mode, "in-envelope", False, ctx.seed, "forgeries only"))   # the keyless forgeries, every run
                     continue
+                if real and mode == "cache":
+                    jobs.append((real, ri, mode, "in-envelope", False, ctx.seed, "forgeries only"))
                 for layout in ("in-envelope", "trailing"):
                     if not ctx.thorough and rng.random() < 0.5:
                         continue
